@@ -124,7 +124,7 @@ I0(p) ==
     mview |-> (INIT :> BotFor(p)),
     glued |-> {},
     relx  |-> [t \in TS |-> [x \in Q.atoms |-> BotFor(p)]],
-    cells |-> [c \in Q.cells |-> [w |-> [u \in TS |-> 0], r |-> [u \in TS |-> 0]]],
+    cells |-> [c \in Q.cells |-> [w |-> [u \in TS |-> 0], r |-> [u \in TS |-> 0], hr |-> {}, hw |-> 0]],
     ash   |-> [x \in Q.atoms |-> [mut |-> [u \in TS |-> 0], uld |-> [u \in TS |-> 0],
                                   ld  |-> [u \in TS |-> 0], sto |-> [u \in TS |-> 0]]],
     ob    |-> InitOb(p) ]
@@ -321,14 +321,42 @@ CellWrite(t, c, me) ==
   THEN Race /\ UNCHANGED cells
   ELSE NoRace /\ cells' = [cells EXCEPT ![c].w[t] = Clk(me, t)]
 
+\* an access that starts while another access of the conflicting kind is open (UnsafeCell::get / get_mut pointers held by
+\* some thread, hr / hw): loom's "currently reading from / writing to cell" assertion, checked before the race check
+CellUsage(t, ins, me) ==
+  /\ end' = "usage"
+  /\ UNCHANGED <<pc, regs, tv, scv, ob, sub, st>> /\ UnchMem /\ UnchRace
 Rd(t, ins, me) ==
+  IF cells[ins.o].hw # 0 THEN CellUsage(t, ins, me) ELSE
   /\ CellRead(t, ins.o, me)
   /\ SetMe(t, me) /\ NoRet /\ Adv(t) /\ UnchMem
   /\ UNCHANGED <<scv, ob, sub, st, ash>>
 Wr(t, ins, me) ==
+  IF cells[ins.o].hw # 0 \/ cells[ins.o].hr # {} THEN CellUsage(t, ins, me) ELSE
   /\ CellWrite(t, ins.o, me)
   /\ SetMe(t, me) /\ NoRet /\ Adv(t) /\ UnchMem
   /\ UNCHANGED <<scv, ob, sub, st, ash>>
+\* UnsafeCell::get() / get_mut(): the access is open from the call until the pointer is dropped; it is checked against
+\* conflicting accesses when it starts AND when it ends (Reading::drop / Writing::drop track the access again)
+CellPlain(t, me) == SetMe(t, me) /\ NoRet /\ Adv(t) /\ UnchMem /\ UNCHANGED <<scv, ob, sub, st, ash>>
+RdHold(t, ins, me) ==
+  LET c == ins.o IN
+  IF cells[c].hw # 0 THEN CellUsage(t, ins, me)
+  ELSE IF ~Covered(cells[c].w, me.cur, t) THEN Race /\ UNCHANGED cells /\ CellPlain(t, me)
+  ELSE NoRace /\ cells' = [cells EXCEPT ![c].r[t] = Clk(me, t), ![c].hr = @ \cup {t}] /\ CellPlain(t, me)
+RdRel(t, ins, me) ==
+  LET c == ins.o IN
+  IF ~Covered(cells[c].w, me.cur, t) THEN Race /\ UNCHANGED cells /\ CellPlain(t, me)
+  ELSE NoRace /\ cells' = [cells EXCEPT ![c].r[t] = Clk(me, t), ![c].hr = @ \ {t}] /\ CellPlain(t, me)
+WrHold(t, ins, me) ==
+  LET c == ins.o IN
+  IF cells[c].hw # 0 \/ cells[c].hr # {} THEN CellUsage(t, ins, me)
+  ELSE IF ~Covered(cells[c].w, me.cur, t) \/ ~Covered(cells[c].r, me.cur, t) THEN Race /\ UNCHANGED cells /\ CellPlain(t, me)
+  ELSE NoRace /\ cells' = [cells EXCEPT ![c].w[t] = Clk(me, t), ![c].hw = t] /\ CellPlain(t, me)
+WrRel(t, ins, me) ==
+  LET c == ins.o IN
+  IF ~Covered(cells[c].w, me.cur, t) \/ ~Covered(cells[c].r, me.cur, t) THEN Race /\ UNCHANGED cells /\ CellPlain(t, me)
+  ELSE NoRace /\ cells' = [cells EXCEPT ![c].w[t] = Clk(me, t), ![c].hw = 0] /\ CellPlain(t, me)
 
 \* the closure passed to with / with_mut panics (k = "panic"): the access itself is checked first
 FailInside(t, ins, me, racy) ==
@@ -798,6 +826,10 @@ Do(t, ins, me) ==
     [] ins.op = "rd"       -> IF ins.k = "panic" THEN RdPanic(t, ins, me) ELSE Rd(t, ins, me)
     [] ins.op = "wr"       -> IF ins.k = "panic" THEN WrPanic(t, ins, me) ELSE Wr(t, ins, me)
     [] ins.op \in {"wrrd", "rdwr"} -> NestedCell(t, ins, me)
+    [] ins.op = "rdhold"   -> RdHold(t, ins, me)
+    [] ins.op = "rdrel"    -> RdRel(t, ins, me)
+    [] ins.op = "wrhold"   -> WrHold(t, ins, me)
+    [] ins.op = "wrrel"    -> WrRel(t, ins, me)
     [] ins.op = "spawn"    -> Spawn(t, ins, me)
     [] ins.op = "join"     -> Join(t, ins, me)
     [] ins.op = "yield"    -> Yield(t, ins, me)
